@@ -80,6 +80,13 @@ def mk_pred(fspec):
     raise ValueError(fspec)
 
 
+def norm_msg(e, n=48):
+    """Stable head of an exception message (no addresses, ids, numbers) for signatures."""
+    import re
+    m = re.split(r"[0-9<\[\(\{'\"]", str(e), maxsplit=1)[0].strip(" :,-")
+    return m[:n]
+
+
 class Stop(Exception):
     """Run ended early because a violation makes the remaining state meaningless."""
 
@@ -276,6 +283,8 @@ class HarnessA:
 
     # after every kernel event
     def on_event(self):
+        if self.stopped:
+            return
         self.scan_ready()
         self.check_c01("event")
 
@@ -407,7 +416,7 @@ class HarnessA:
         if wf:
             if exc is not None or not r:
                 t.state = "used"
-                self.violate("C01", "put-failed" + (":" + type(exc).__name__ if exc else ":falsy"),
+                self.violate("C01", "put-failed" + (":" + type(exc).__name__ + ":" + norm_msg(exc) if exc else ":falsy"),
                              f"put with granted, un-cancelled own reservation {t.name} failed: {exc!r} / returned {r!r}",
                              feat=("cp", "cg"), stop=True)
             t.state = "used"
@@ -446,7 +455,7 @@ class HarnessA:
         if wf:
             t.state = "used"
             if exc is not None:
-                self.violate("C02", "get-raised:" + type(exc).__name__,
+                self.violate("C02", "get-raised:" + type(exc).__name__ + ":" + norm_msg(exc),
                              f"get with granted, un-cancelled own reservation {t.name} raised {exc!r}", stop=True)
             rec = self.byobj.get(id(y))
             if rec is None or rec.obj is not y:
@@ -500,7 +509,7 @@ class HarnessA:
             t.state = "cancelled"
             if exc is not None:
                 prop = "C01" if kind == "p" else "C06"
-                self.violate(prop, f"cancel-raised:{type(exc).__name__}", f"cancel of live reservation {t.name} ({was}) raised {exc!r}", stop=True)
+                self.violate(prop, f"cancel-raised:{type(exc).__name__}:{norm_msg(exc)}", f"cancel of live reservation {t.name} ({was}) raised {exc!r}", stop=True)
             self.hist.append(("cancel", self.env.seq, self.env.now, t.name, kind, was))
             if was == "granted":
                 self.fault("F2_cancel_granted_" + ("put" if kind == "p" else "get"))
